@@ -30,10 +30,10 @@ TIERS = {
 FORMATS = [(1, 1), (2, 1), (2, 2), (4, 1), (1, 3), (4, 2), (2, 3)]
 
 
-def mc_cfg(t, invs, export=True, fix=True):
+def mc_cfg(t, invs, export=True, fix=True, useful="Useful"):
     c = f"CONSTANTS MaxN = {t['MaxN']} MaxB = {t['MaxB']} MaxOps = {t['MaxOps']} FixD3 = {'TRUE' if fix else 'FALSE'}\nSPECIFICATION Spec\n"
     c += "".join(f"INVARIANT {i}\n" for i in invs)
-    c += "CONSTRAINT Useful\n"
+    c += f"CONSTRAINT {useful}\n"
     if export:
         c += "CONSTRAINT Export\n"
     return c + "CHECK_DEADLOCK TRUE\n"
@@ -352,11 +352,22 @@ def check(prop, tier, replay=None):
     ]
     t = TIERS[tier]
     invs = ["TypeOK", "C10"] if prop == "C10" else ["TypeOK", "C19", "C19Replay"]
-    res = tlc.run("ReaderMC", mc_cfg(t, invs), wd, name="mc", timeout=3000, mem="12g")
+    # thorough: the large bound is explored (and exported) without close(); histories with a close() get the quick bound plus one operation
+    res = tlc.run("ReaderMC", mc_cfg(t, invs, useful="Useful" if tier == "quick" else "UsefulNoClose"), wd, name="mc", timeout=3000, mem="12g")
     tlc.require_ok(res, "leg M")
     V.add_model("M", res)
     if res["violated"] or not res["ok"]:
         raise MachineryError(f"leg M: {res['violated']} / {res['error']} in the specification itself\n" + tlc.counterexample(res, 60))
+    if tier != "quick":
+        res_c = tlc.run("ReaderMC", mc_cfg(dict(MaxN=4, MaxB=3, MaxOps=7), invs), wd, name="mc_close", timeout=3000, mem="12g")
+        tlc.require_ok(res_c, "leg M (close)")
+        V.add_model("M:close", res_c)
+        if res_c["violated"] or not res_c["ok"]:
+            raise MachineryError(f"leg M (close): {res_c['violated']} / {res_c['error']} in the specification itself\n" + tlc.counterexample(res_c, 60))
+        extra = [b for b in res_c["json"] if any(e["op"] == "close" for e in b["log"])]
+        rng.shuffle(extra)
+        res["json"] = list(res["json"]) + extra[:200000]
+        del res_c
     dead = [a for a in ("ReadFixed", "ReadOvInit", "ReadOvRun", "ReadOvDead", "Rewind", "Data") if res["actions"].get(a, [0, 0])[0] == 0]
     if dead:
         raise MachineryError(f"leg M: actions never taken: {dead}")
